@@ -87,7 +87,7 @@ func exactAlloc(f func()) uint64 {
 func (c C13Case) rule() rule.Rule {
 	switch c.RuleType {
 	case 1:
-		w := &rule.FileWatchRule{Type: rule.Type(c.TypeCode), Path: c.Path, Keys: c.Keys}
+		w := &rule.FileWatchRule{Type: rule.Type(c.TypeCode), Path: strings.Replace(c.Path, "$SCRATCH", scratchDir, 1), Keys: c.Keys}
 		for _, p := range c.Perms {
 			w.Permissions = append(w.Permissions, rule.AccessType(p))
 		}
@@ -233,6 +233,10 @@ func js(t *rapid.T, label string) string {
 	return rapid.OneOf(rapid.SampledFrom(junkStrings), rapid.StringN(0, 12, 40)).Draw(t, label)
 }
 
+// scratchSpecialNames: the fifo and the socket of the scratch directory, by a name that is stable across processes
+// (replay files must not carry the random directory): $SCRATCH/fifo is expanded when the rule is built.
+func scratchSpecialNames() []string { return []string{"$SCRATCH/fifo", "$SCRATCH/sock", "$SCRATCH/link-to-dir"} }
+
 func genBuildCase(t *rapid.T) C13Case {
 	c := C13Case{Kind: "build"}
 	c.RuleType = rapid.SampledFrom([]int{0, 0, 0, 0, 0, 1, 1, 2, 3}).Draw(t, "ruletype")
@@ -259,7 +263,7 @@ func genBuildCase(t *rapid.T) C13Case {
 	for i, n := 0, rapid.IntRange(0, 3).Draw(t, "nkeys"); i < n; i++ {
 		c.Keys = append(c.Keys, js(t, "key"))
 	}
-	c.Path = rapid.OneOf(rapid.SampledFrom([]string{"/etc/passwd", "/", "/tmp", "relative", "", "/nonexistent", "/etc/../etc//passwd"}), rapid.SampledFrom(junkStrings)).Draw(t, "path")
+	c.Path = rapid.OneOf(rapid.SampledFrom(append([]string{"/etc/passwd", "/", "/tmp", "relative", "", "/nonexistent", "/etc/../etc//passwd", "/dev/null", "/proc/self/mem"}, scratchSpecialNames()...)), rapid.SampledFrom(junkStrings)).Draw(t, "path")
 	for i, n := 0, rapid.IntRange(0, 6).Draw(t, "nperms"); i < n; i++ {
 		c.Perms = append(c.Perms, uint8(rapid.IntRange(0, 7).Draw(t, "perm")))
 	}
